@@ -57,3 +57,10 @@ CORPUS += [
     M("deprecated-forwards-first-call-only", "msmart/utils.py", "                setattr(func, \"_warn_deprecate\", True)\n\n            return func(*args, **kwargs)", "                setattr(func, \"_warn_deprecate\", True)\n                return func(*args, **kwargs)"),
     M("eco-setter-clears-turbo", "msmart/device/AC/device.py", "    @eco.setter\n    def eco(self, enabled: bool) -> None:\n        self._eco = enabled", "    @eco.setter\n    def eco(self, enabled: bool) -> None:\n        self._eco = enabled\n        if enabled:\n            self._turbo = False"),
 ]
+# round 9 (growth): a flag the command class declares itself may use an unclaimed bit, not a listed field's bit
+CORPUS += [
+    M("n-extra-flag-in-free-bit", C, "        self.follow_me = False\n", "        self.follow_me = False\n        self.dry_clean = False\n", "S",
+      also=[(C, "            eco | purifier | force_aux_heat | aux_heat,", "            eco | purifier | force_aux_heat | aux_heat | (0x04 if self.dry_clean else 0),")]),
+    M("extra-flag-on-eco-bit", C, "        self.follow_me = False\n", "        self.follow_me = False\n        self.dry_clean = False\n",
+      also=[(C, "            eco | purifier | force_aux_heat | aux_heat,", "            eco | purifier | force_aux_heat | aux_heat | (0x80 if self.dry_clean else 0),")]),
+]
